@@ -40,6 +40,13 @@ var vC17Programs = []struct {
 	{`(def d (Dog Name: "rover" Number: 9001)) (def pd (& d)) (derefSet pd "str")`, -1},
 	{`(struct Cat [(field Nip: string e:0)]) (def d (Dog Name: "rover" Number: 9001)) (def pd (& d)) (derefSet pd (Cat Nip: "green"))`, -1},
 	{`(def d (Dog Name: "rover" Number: 9001)) (def pd (& d)) (struct Dog [(field Name: int64 e:0) (field Heavy: float64 e:1)]) (def d2 (Dog Name: 7 Heavy: 2.5)) (derefSet pd d2)`, -1},
+	// a struct declared without fields, instantiated, then redeclared with fields: the old instance keeps its (empty) definition
+	{`(struct Bare []) (def d (Dog Name: "rover" Number: 9001)) (def e (Bare)) (struct Bare [(field Big: int64 e:0)]) (hset e Big: 5)`, -1},
+	{`(struct Bare []) (def d (Dog Name: "rover" Number: 9001)) (def e (Bare)) (struct Bare [(field Big: int64 e:0)]) {e.Big = 5}`, -1},
+	{`(struct Bare []) (def d (Dog Name: "rover" Number: 9001)) (def e (Bare)) (hset e Anything: 5)`, -1},
+	// instances made after the redeclaration follow the new definition
+	{`(def d (Dog Name: "rover" Number: 9001)) (struct Dog [(field Name: string e:0) (field Number: int64 e:1) (field Extra: int64 e:2)]) (def d3 (Dog Name: "n" Number: 1 Extra: 9001)) (+ 0 d3.Extra)`, 1},
+	{`(def d (Dog Name: "rover" Number: 9001)) (struct Dog [(field Name: string e:0) (field Number: int64 e:1) (field Extra: int64 e:2)]) (hset d Extra: 4)`, -1},
 	// nil is accepted where the language says so
 	{`(def d (Dog Name: "rover" Number: 9001)) (hset d Name: nil) (+ 0 d.Number)`, 1},
 }
